@@ -249,7 +249,9 @@ class RpcClient:
             raise ValueError(f"Received BindNack with reason 0x{pdu_resp.reject_reason:08X}")
         elif isinstance(pdu_resp, Fault):
             raise ValueError(f"Receive Fault with status 0x{pdu_resp.status:08X}")
-        elif not isinstance(pdu_resp, resp_type):
+        elif type(pdu_resp) is not resp_type:
+            # An exact match is needed as AlterContextResponse is a subclass of
+            # BindAck and must not be accepted as the response to a Bind.
             raise ValueError(
                 f"Received unexpected PDU response of {type(pdu_resp).__name__} when expecting {resp_type.__name__}"
             )
